@@ -183,12 +183,19 @@ def run_real(c):
     try:
         tree = dict(c["base"])
         yamlfs.materialise(tree, root)
-        src = YamlTargetSource(config(c, root, c["cache_size"]))
+        # one long-lived source - or two over the same directory serving the gets alternately (caching is transparent,
+        # so which of them answers, and what the other one has cached meanwhile, must not matter)
+        srcs = [YamlTargetSource(config(c, root, c["cache_size"]))]
+        if c.get("nsrc", 1) == 2:
+            srcs.append(YamlTargetSource(config(c, root, 1)))
+        ngets = 0
         pd, pv = yamlfs.PRECEDING[0]
         faults = {}
         out = []
         for op in c["ops"]:
+            src = srcs[ngets % len(srcs)]
             if op[0] == "get":
+                ngets += 1
                 with yamlfs.Faults(root, faults):
                     r = get(src, op[1], pd, pv)
                     snap = copy.deepcopy(r)
@@ -407,7 +414,8 @@ class C12(Check):
             for ml, ms in (((True, True),) if tier == "quick" else ((True, True), (True, False), (False, True))):
                 for cs in ((rng.choice((1, 64)),) if tier == "quick" else (1, 64)):
                     ops = [("get", "s1"), m1, ("get", "s1"), ("get", "s2"), m2, ("get", "s1"), ("get", "s1")]
-                    yield {"base": BASE_L, "ops": ops, "cache_size": cs, "engine": False, "ml": ml, "ms": ms, "allow_empty": False}
+                    yield {"base": BASE_L, "ops": ops, "cache_size": cs, "engine": False, "ml": ml, "ms": ms, "allow_empty": False,
+                           "nsrc": rng.choice((1, 2))}
         # only the trailing line breaks after a final block scalar change
         for engine in (False, True):
             for i, t1 in enumerate(BLOCK_TEXTS):
@@ -417,10 +425,10 @@ class C12(Check):
                         continue
                     ops = [("edit", "f.yaml", t1), ("get", "s1"), ("edit", "f.yaml", t2), ("get", "s1"), ("edit", "f.yaml", t1), ("get", "s1")]
                     yield {"base": BASE_B, "ops": ops, "cache_size": 64, "engine": engine, "ml": False, "ms": True, "allow_empty": False}
-        for base, ops in fault_histories():
+        for i, (base, ops) in enumerate(fault_histories()):
             for engine in (False, True):
                 yield {"base": base, "ops": ops, "cache_size": 64 if engine else 2, "engine": engine, "ml": False, "ms": True,
-                       "allow_empty": False}
+                       "allow_empty": False, "nsrc": 1 + (i % 2)}
         # the top file turns malformed and heals again (every TypeError / RuntimeError branch of _process_top)
         for bad in ("- a\n", "'*': 5\n", "'*': [a, '']\n", "5: [a]\n", "'(': [a]\n", "'*': [a\n", "", "[]\n", "{}\n"):
             ops = [("get", "s1"), ("edit", "top.yaml", bad), ("get", "s1"), ("get", "s2"), ("edit", "top.yaml", BASE["top.yaml"]),
@@ -530,6 +538,7 @@ class C12(Check):
         if c.get("kind") == "lru":
             return {"kind": "lru", "cache_size": c["cap"], "ops": [list(o) for o in c["ops"]]}
         return {"base": c["base"], "ops": [list(op) for op in c["ops"]], "cache_size": c["cache_size"], "engine": c["engine"],
+                "long_lived_sources": c.get("nsrc", 1),
                 "merge_lists": c["ml"], "merge_sets": c["ms"], "allow_empty_top": c["allow_empty"]}
 
     def shrink(self, c):
